@@ -62,6 +62,7 @@ def make_dataset(ds):
 
 
 IT_SELECT = ('all', 'second', 'last_first', 'dup')
+LEVELS = (0, 1, 12)        # 'rl=1' is a string prefix of 'rl=12'
 VAR_SELECT = ('all', 'A', 'BA')
 
 
@@ -85,7 +86,7 @@ def ops_full():
     for ds in range(5):
         for isel in IT_SELECT:
             for vsel in VAR_SELECT:
-                for rl in (0, 1):
+                for rl in LEVELS:
                     out.append(('save', ds, isel, vsel, rl))
     return out
 
@@ -94,7 +95,7 @@ def ops_reduced():
     out = []
     for ds in range(5):
         for isel in ('all', 'second', 'last_first'):
-            for vsel, rl in (('all', 0), ('A', 0), ('BA', 1)):
+            for vsel, rl in (('all', 1), ('A', 0), ('BA', 12)):
                 out.append(('save', ds, isel, vsel, rl))
     return out
 
@@ -103,7 +104,7 @@ def ops_small():
     out = []
     for ds in range(5):
         for isel in ('all', 'second'):
-            for vsel, rl in (('all', 0), ('A', 1)):
+            for vsel, rl in (('all', 12), ('A', 1)):
                 out.append(('save', ds, isel, vsel, rl))
     return out
 
@@ -246,7 +247,7 @@ class System:
     def check_probes(self, tag):
         from aurel import reading
         viol = []
-        for rl in (0, 1):
+        for rl in LEVELS:
             for J in PROBE_ITS:
                 for W in PROBE_VARS:
                     Jarg, Warg = list(J), list(W)
@@ -340,7 +341,8 @@ def main(tier):
     per = {}
     plans = []
     if tier == 'quick':
-        quick_full = [o for o in ops_full() if o[3] != 'BA']
+        quick_full = [o for o in ops_full()
+                      if o[3] != 'BA' and o[2] != 'dup']
         plans = [('slash', quick_full, 2), ('noslash', ops_reduced(), 2),
                  ('et', ops_reduced(), 2), ('slash', ops_small(), 3)]
     else:
@@ -365,7 +367,7 @@ def main(tier):
     run.assume("reference semantics: array looked up by iteration VALUE in "
                "data['it']; None entries/columns skipped; later saves "
                "overwrite")
-    nprobes = 2 * len(PROBE_ITS) * len(PROBE_VARS)
+    nprobes = len(LEVELS) * len(PROBE_ITS) * len(PROBE_VARS)
     hs = runner.hashseed_children(PID, run) if tier == 'thorough' else []
     return run.finish({
         'hash_seed_children': hs,
@@ -388,7 +390,8 @@ def replay(rec):
     _STYLE = label.split('/')[0]
     nops = int(label.split('ops=')[1].split('/')[0])
     ops = {len(o): o for o in (ops_full(), ops_reduced(), ops_small(),
-                               [o for o in ops_full() if o[3] != 'BA'])
+                               [o for o in ops_full()
+                                if o[3] != 'BA' and o[2] != 'dup'])
            }[nops]
     v = explorer.replay_history(factory, ops, c['history_idx'])
     return 1 if v else 0
